@@ -44,6 +44,9 @@ func c05RunFinding(t *testing.T, id string, cases []c05FindingCase) {
 				t.Fatalf("harness: loopback sockets unavailable: %v", err)
 			}
 		}
+		if v.inconclusive != "" {
+			t.Logf("%s/%s: inconclusive on the real clock (%s)", id, c.name, v.inconclusive)
+		}
 		switch {
 		case known && v.fail != "" && strings.Contains(v.fail, c.symptom):
 			reproduced++
